@@ -273,22 +273,26 @@ def kinds(rest: str, other: str) -> bool:
 
 
 def standin() -> int:
-    """Native sanity: a few concrete trees through the oracle (must hold) and a broken listing (must fail)."""
+    """Native sanity of the harness itself (decides nothing about the property): the stand-in
+    node class yields the same diff trees as the real DiffNode, and the ordered-replay oracle
+    rejects an illegal order / accepts a legal one on hand-made node lists."""
     A = {"a": {"x": "h1", "y": {}}, "b": "h2"}
     B = {"a": "h3", "b": "h2", "c": {"q": "symlink:t"}}
-    ps = ["a", "b", "a/x", "a/y", "c", "c/q"]
 
     def dump(n):
-        return None if n is None else (str(n.path), n.prev, n.curr, n.status().value,
-                                       [dump(c) for c in n.nodes() if c is not n])
+        return None if n is None else (str(n.path), n.prev, n.curr, sorted(str(k) for k in n.removed),
+                                       sorted(str(k) for k in n.modified), sorted(str(k) for k in n.added),
+                                       [dump(c) for c in sorted(n.children(), key=lambda c: str(c.path))])
     for X, Y in ((A, B), (B, A), (A, A), ({}, B), (A, {})):
         assert dump(N.compare(X, Y, Path(""))) == dump(DiffNode.compare(X, Y, Path("")))
-    assert _oracle(A, B, ps) and _oracle(B, A, ps) and _oracle(A, A, ps) and _oracle({}, B, ps) and _oracle(A, {}, ps)
-    dd = DirDiff.compare(A, B)
-    ns = dd._diff_root.nodes()
+    # hand-made listing for old={"d": {"f": "1"}} -> new={"d": "2"}
+    old, new = {"d": {"f": "1"}}, {"d": "2"}
+    child = N(Path("d/f"), "1", None)
+    parent = N(Path("d"), {"f": "1"}, "2")
+    assert apply_nodes(old, [child, parent]) == new
     try:
-        apply_nodes(A, list(reversed(ns)))
-        raise AssertionError("reversed order must be illegal")
+        apply_nodes(old, [parent, child])
+        raise AssertionError("replacing a non-empty directory must be illegal")
     except Illegal:
         pass
-    return 6
+    return 7
